@@ -309,7 +309,7 @@ def rule_f(ctx):
                     continue
                 for st in blk["s"]:
                     rv = st["r"]
-                    if rv["k"] == "agg" and rv.get("ak") == "tuple" or (rv["k"] == "agg" and rv.get("adt") is None and len(rv.get("o", [])) == 2):
+                    if rv["k"] == "agg" and len(rv.get("o", [])) == 2 and (rv.get("ak") == "tuple" or rv.get("adt") is None):
                         o1 = repr(norm(sl.operand(rv["o"][1], at=i)))
                         if argn and (argn in o1 or o1 in argn):
                             flows = True
